@@ -68,6 +68,9 @@ type Spec[C any] struct {
 	Pretty    func(c *C) any // optional human-readable form for samples / replay files
 	// CaseTimeout: if >0 a case running longer is reported as a hang.
 	CaseTimeout time.Duration
+	// Journal: write the case to disk before it runs, so that a process death
+	// (a panic in a goroutine pprof spawned) is attributed to the case in flight.
+	Journal bool
 }
 
 type failure struct {
@@ -279,9 +282,17 @@ func Main[C any](t *testing.T, s Spec[C]) {
 	}
 	defer flush()
 
+	inflight := filepath.Join(outDir(), fmt.Sprintf("inflight-%s-%s-%d.json", s.ID, s.Facet, Shard()))
+	if s.Journal {
+		defer os.Remove(inflight)
+	}
 	rapid.Check(t, func(rt *rapid.T) {
 		c := s.Gen(rt)
 		o := &Obs{}
+		if s.Journal {
+			b, _ := json.Marshal(ReplayFile{Property: s.ID, Facet: s.Facet, Violations: []string{"the test process died while this case was running (crash in a goroutine pprof started, fatal error, or os.Exit)"}, CaseGob: encodeCase(c)})
+			os.WriteFile(inflight, b, 0o644)
+		}
 		msgs := safeCheck(&s, c, o)
 		if !failed {
 			res.Evaluations++
